@@ -94,11 +94,14 @@ func vpC05Start(t *rapid.T) (*vpC05Env, error) {
 	tag := fmt.Sprintf("c05k-%d", rapid.IntRange(0, 1<<20).Draw(t, "net"))
 	nodes := rapid.SampledFrom([]int{7, 7, 7, 8}).Draw(t, "nodes")
 	self := rapid.SampledFrom([]int{-1, -1, 0, 3}).Draw(t, "self")
-	mode := rapid.SampledFrom([]string{"wall", "ledger"}).Draw(t, "clock")
-	return vpC05StartWith(tag, nodes, self, mode, rapid.IntRange(0, nodes-1).Draw(t, "fund_chain"), rapid.IntRange(0, nodes-1).Draw(t, "fund_chain2"))
+	mode := rapid.SampledFrom([]string{"wall", "ledger", "behind"}).Draw(t, "clock")
+	return vpC05StartWith(tag, nodes, self, mode, rapid.IntRange(0, nodes-1).Draw(t, "fund_rot"))
 }
 
-func vpC05StartWith(tag string, nodes, self int, mode string, chain1, chain2 int) (*vpC05Env, error) {
+// vpC05StartWith starts the node and finalizes the funding transactions, one
+// snapshot on every chain (rot shifts the assignment), so that every head round
+// carries a snapshot at the ledger time.
+func vpC05StartWith(tag string, nodes, self int, mode string, rot int) (*vpC05Env, error) {
 	e := &vpC05Env{nodes: nodes, self: self, mode: mode, byRef: map[string]*vpC05Out{}}
 	e.net = vpKNewNet(e.nodes, tag, 4)
 	e.dir = vpKTempDir("c05k")
@@ -131,16 +134,27 @@ func vpC05StartWith(tag string, nodes, self int, mode string, chain1, chain2 int
 	p3 := e.net.XINDeposit(common.KernelNodePledgeAmount, 2, "0xc05k-p3", 3)
 	dx := e.net.XINDeposit(common.NewInteger(600), 2, "0xc05k-x", 4)
 	db := e.net.BTCDeposit(common.NewInteger(60), 3, "0xc05k-b", 5)
-	if err := e.finalize(chain1, []*common.VersionedTransaction{p1, p2, p3, dx, db}); err != nil {
-		e.Close()
-		return nil, err
+	fund := []*common.VersionedTransaction{p1, p2, p3, dx, db}
+	for i := 7; i < e.nodes; i++ {
+		fund = append(fund, e.net.BTCDeposit(common.NewInteger(1), 0, fmt.Sprintf("0xc05k-e%d", i), 10+i))
+	}
+	at := 0
+	for _, f := range fund {
+		if err := e.finalize((rot+at)%e.nodes, []*common.VersionedTransaction{f}); err != nil {
+			e.Close()
+			return nil, err
+		}
+		at++
 	}
 	to := []int{0, 1, 2, 3, 0, 1, 2, 3}
 	tx := e.net.Transfer(dx, 2, to, 6, nil, nil)
 	tb := e.net.Transfer(db, 3, to, 7, nil, nil)
-	if err := e.finalize(chain2, []*common.VersionedTransaction{tx, tb}); err != nil {
-		e.Close()
-		return nil, err
+	for _, f := range []*common.VersionedTransaction{tx, tb} {
+		if err := e.finalize((rot+at)%e.nodes, []*common.VersionedTransaction{f}); err != nil {
+			e.Close()
+			return nil, err
+		}
+		at++
 	}
 	for i, a := range to {
 		e.register(&e.pool, tx, i, a)
@@ -161,8 +175,11 @@ func vpC05StartWith(tag string, nodes, self int, mode string, chain1, chain2 int
 		}
 		k.Node.SyncPointsMap = spm
 	}
-	if e.mode == "ledger" {
+	switch e.mode {
+	case "ledger":
 		clock.MockDiff(time.Unix(0, int64(e.clock)).Add(2 * time.Second).Sub(time.Now()))
+	case "behind": // the node's clock lags the ledger: no chain may propose yet
+		clock.MockDiff(time.Unix(0, int64(e.clock)).Add(-time.Hour).Sub(time.Now()))
 	}
 	return e, nil
 }
@@ -390,7 +407,7 @@ func (e *vpC05Env) mutate(t *rapid.T, base *common.VersionedTransaction) (*commo
 				classes = append(classes, "in-genesis-custodian")
 			case 2: // nowhere
 				in.Hash = crypto.Blake3Hash([]byte(fmt.Sprint("c05k-missing", e.seq)))
-				in.Index = uint(rapid.SampledFrom([]int{0, 1, 255, 1024, 70000}).Draw(t, "mut_in_idx"))
+				in.Index = uint(rapid.SampledFrom([]int{0, 1, 255, 1024, 65535, 70000}).Draw(t, "mut_in_idx"))
 				classes = append(classes, "in-missing")
 			case 3: // a spent output (the deposits behind the pool)
 				in.Hash = e.pool[rapid.IntRange(0, 1).Draw(t, "mut_in_spent")].tx.Inputs[0].Hash
@@ -485,7 +502,10 @@ func (e *vpC05Env) mutate(t *rapid.T, base *common.VersionedTransaction) (*commo
 		}
 	}
 	if resign && st.AggregatedSignature == nil && st.SignaturesMap != nil && rapid.IntRange(0, 4).Draw(t, "resign") != 0 {
-		msg := st.Transaction.AsVersioned().PayloadHash()
+		var msg crypto.Hash
+		if p := vpKCatch(func() { msg = st.Transaction.AsVersioned().PayloadHash() }); p != nil {
+			return nil, append(classes, "not-encodable")
+		}
 		for i, in := range st.Inputs {
 			if i >= len(st.SignaturesMap) {
 				break
@@ -601,12 +621,12 @@ func (e *vpC05Env) chainIndex(id crypto.Hash) int {
 }
 
 func TestVP_C05_kernel_admission(t *testing.T) {
-	c := kit.New(t, "C05", "rapid: a real node (7 or 8 genesis nodes; observer or member with peers reporting its round; kernel clock at the wall time or mocked to the ledger time; Peer without neighbours as in C31) with finalized XIN/BTC outputs; batches of 2..6 transactions = valid templates (deposit, transfer, withdrawal submit, custodian update, node pledge, accept- and remove-shaped, mint-shaped) with 0..3 structural mutations (signature maps none/short/long/shifted, aggregate signature with arbitrary signers, output type confusion, huge/zero amounts, inputs re-pointed at genesis accept / custodian / spent / missing / other-asset outputs, mint or deposit payload riding on an ordinary input, storage-output shape, references none/unknown/known/17, extra cut/grown/genesis, node-remove typed without signature maps, extra outputs, other asset), re-signed with the owners' keys, round-tripped through Marshal/Unmarshal; each is handed to QueueTransaction, CacheQueueTransactions and/or CacheStoreTransactions, then popAndProcessCacheQueue runs, then validateSnapshotTransaction(s, false|true) on snapshots naming 1..3 of them (chain elected for the operation or drawn, times in and outside the operation windows); oracle: no call panics; non-trivial = the transaction got past the structural checks of Validate inside an entry point (rejected later or accepted); distinct by encoding hash")
+	c := kit.New(t, "C05", "rapid: a real node (7 or 8 genesis nodes; observer or member with peers reporting its round; kernel clock at the wall time, mocked to the ledger time or one hour behind the ledger; Peer without neighbours as in C31) with finalized XIN/BTC outputs; batches of 2..6 transactions = valid templates (deposit, transfer, withdrawal submit, custodian update, node pledge, accept- and remove-shaped, mint-shaped) with 0..3 structural mutations (signature maps none/short/long/shifted, aggregate signature with arbitrary signers, output type confusion, huge/zero amounts, inputs re-pointed at genesis accept / custodian / spent / missing / other-asset outputs, mint or deposit payload riding on an ordinary input, storage-output shape, references none/unknown/known/17, extra cut/grown/genesis, node-remove typed without signature maps, extra outputs, other asset), re-signed with the owners' keys, round-tripped through Marshal/Unmarshal; each is handed to QueueTransaction, CacheQueueTransactions and/or CacheStoreTransactions, then popAndProcessCacheQueue runs, then validateSnapshotTransaction(s, false|true) on snapshots naming 1..3 of them (chain elected for the operation or drawn, times in and outside the operation windows); oracle: no call panics; non-trivial = the transaction got past the structural checks of Validate inside an entry point (rejected later or accepted); distinct by encoding hash")
 	c.Require("queue-tx:accepted", "queue-tx:deep", "queue-tx:early", "queue-tx:requeue", "cache-queue", "cache-store", "pop:accepted", "pop:deep", "pop:early", "pop-relayed-or-proposed",
 		"snap:accepted", "snap:deep", "snap:early", "snap:missing", "snap-finalized", "snap-ordinary", "snap-batch", "snap-kernel-rule",
 		"template-deposit", "template-transfer", "template-submit", "template-custodian", "template-pledge", "template-accept", "template-remove", "template-mint",
 		"mut-maps-none", "mut-maps-short", "mut-maps-long", "mut-maps-shift", "mut-out-type", "mut-out-amount", "mut-in-repoint", "mut-in-special", "mut-storage-out", "mut-aggregate", "mut-refs", "mut-extra", "mut-remove-typed-unsigned",
-		"in-genesis-accept", "in-genesis-custodian", "type-9", "type-0", "unmutated", "self-observer", "self-member", "clock-wall", "clock-ledger", "nodes-8")
+		"in-genesis-accept", "in-genesis-custodian", "type-9", "type-0", "unmutated", "self-observer", "self-member", "clock-wall", "clock-ledger", "clock-behind", "nodes-8")
 	kit.SetChecks(kit.N(60, 3000))
 	rapid.Check(t, func(t *rapid.T) {
 		e, err := vpC05Start(t)
@@ -627,6 +647,10 @@ func TestVP_C05_kernel_admission(t *testing.T) {
 			for i, n := 0, rapid.IntRange(2, 6).Draw(t, "batch"); i < n; i++ {
 				base, kind := e.template(t)
 				st, classes := e.mutate(t, base)
+				if st == nil {
+					c.Class("not-encodable")
+					continue
+				}
 				classes = append(classes, "template-"+kind)
 				if len(classes) == 1 {
 					classes = append(classes, "unmutated")
@@ -666,11 +690,12 @@ func TestVP_C05_kernel_admission(t *testing.T) {
 				}
 				if paths&2 != 0 {
 					list := []*common.VersionedTransaction{x.ver}
+					with := []*vpC05Tx{x}
 					if rapid.Bool().Draw(t, "bundle") {
 						for _, y := range batch {
 							if y != x && rapid.Bool().Draw(t, "bundle_with") {
 								list = append(list, y.ver)
-								y.cached, y.queued = true, true
+								with = append(with, y)
 							}
 						}
 					}
@@ -679,10 +704,13 @@ func TestVP_C05_kernel_admission(t *testing.T) {
 						t.Fatalf("CacheQueueTransactions panicked: %v\nfirst transaction type %d (%v): %s", p, x.ver.TransactionType(), x.classes, x.hex())
 					}
 					if qerr != nil {
-						t.Fatalf("harness: CacheQueueTransactions failed: %v", qerr)
+						x.classes = append(x.classes, "cache-queue-error")
+					} else {
+						for _, y := range with {
+							y.cached, y.queued = true, true
+						}
+						x.classes = append(x.classes, "cache-queue")
 					}
-					x.cached, x.queued = true, true
-					x.classes = append(x.classes, "cache-queue")
 				}
 				if paths&4 != 0 {
 					var serr error
@@ -690,10 +718,11 @@ func TestVP_C05_kernel_admission(t *testing.T) {
 						t.Fatalf("CacheStoreTransactions panicked: %v\ntransaction type %d (%v): %s", p, x.ver.TransactionType(), x.classes, x.hex())
 					}
 					if serr != nil {
-						t.Fatalf("harness: CacheStoreTransactions failed: %v", serr)
+						x.classes = append(x.classes, "cache-store-error")
+					} else {
+						x.cached = true
+						x.classes = append(x.classes, "cache-store")
 					}
-					x.cached = true
-					x.classes = append(x.classes, "cache-store")
 				}
 			}
 			// the queue loop body
@@ -833,7 +862,7 @@ func TestVP_C05_kernel_regress(t *testing.T) {
 	}
 	c := kit.New(t, "C05", "deterministic: the witnesses of C05-F1 (node-remove typed spend of a script output without signature maps) and C05-F2 (XIN storage output of 2^100 units) handed to QueueTransaction, CacheQueueTransactions + popAndProcessCacheQueue and validateSnapshotTransaction of a real observer node; oracle: no panic; distinct by witness and entry point")
 	func(rt *testing.T) {
-		e, err := vpC05StartWith("c05k-regress", 7, -1, "wall", 0, 3)
+		e, err := vpC05StartWith("c05k-regress", 7, -1, "wall", 0)
 		if err != nil {
 			rt.Fatalf("harness: node setup failed: %v", err)
 		}
